@@ -225,7 +225,8 @@ fn cmd_conc(args: &[String]) {
     let (mut contended, mut with_resize, mut with_tree) = (0usize, 0usize, 0usize);
     for i in 0..cases {
         let cseed = only.unwrap_or(seed.wrapping_mul(0x9E3779B97F4A7C15).wrapping_add(i as u64));
-        let case = conc::gen_conc(i, cseed, big);
+        let mode = arg(args, "--mode").unwrap_or("mixed".into());
+        let case = conc::gen_conc_mode(i, cseed, big, &mode);
         if let Some(p) = &progress {
             let _ = std::fs::write(p, format!("conc case-seed {}", cseed));
         }
